@@ -39,6 +39,8 @@ import ast
 import itertools
 
 from ..cfg import NORMAL
+from ..facts import atoms, facts_at
+from ..facts import key as fact_key
 from ..model import contains_await, dotted, parent, unparse, walk_no_nested
 from ..selftest import V
 from ._util_B import (
@@ -617,13 +619,83 @@ def r5(ctx):
     init = p.func(f"{FILTER}.__init__")
     asg = [n for n in init.body_nodes() if isinstance(n, (ast.Assign, ast.AnnAssign)) and n.value is not None and any(
         is_self_attr(t, "filter_function") for t in (n.targets if isinstance(n, ast.Assign) else [n.target]))]
-    ctx.require(len(asg) == 1, "C03.R5: FilterTokenPort.__init__ no longer assigns self.filter_function exactly once")
-    lams = [x for x in ast.walk(asg[0].value) if isinstance(x, ast.Lambda)]
-    names = [x for x in ast.walk(asg[0].value) if isinstance(x, ast.Name)]
-    ctx.require(bool(lams) or all(is_param(init, x) for x in names), "C03.R5: the default filter of FilterTokenPort is not a lambda the rule can read")
-    ok = all(isinstance(l.body, ast.Constant) and l.body.value is True for l in lams)
+    ctx.require(len(asg) >= 1, "C03.R5: FilterTokenPort.__init__ no longer assigns self.filter_function")
+    cands, unread = [], []
+    for a in asg:
+        _default_filters(p, init, a.value, cands, unread)
+    ctx.require(bool(cands) or not unread,
+                "C03.R5: the default filter of FilterTokenPort is not a lambda / named function the rule can read"
+                + (f" (`{unparse(unread[0])}`)" if unread else ""))
+    ok = all(_admits_everything(c) for c in cands)
     ctx.ob("R5", "the default filter of FilterTokenPort admits every token", ok, func=init, node=asg[0], instance="filter.init:default",
-           trivial=not lams, message="FilterTokenPort without an explicit filter_function does not admit every token")
+           trivial=not cands, message="FilterTokenPort without an explicit filter_function does not admit every token")
+
+
+def _named_function(p, f, name: str):
+    """The function a bare name denotes inside `f`: a nested def of `f` (or of an enclosing function), else a
+    module-level function / imported function of the program.  None when the name is (also) a variable."""
+    from ..dataflow import defs_of
+
+    if defs_of(f, name):
+        return None
+    g = f
+    while g is not None:
+        q = f"{g.qualname}.<locals>.{name}"
+        if q in p.functions:
+            return p.functions[q]
+        g = g.outer
+    q = p.resolve_dotted(f.module, name)
+    return p.functions.get(q) if q else None
+
+
+def _default_filters(p, init, e: ast.AST, cands: list, unread: list, depth: int = 0) -> None:
+    """Collect the callables other than a constructor parameter that the expression `e` (assigned to
+    `self.filter_function`) may denote: lambdas and named functions (`ast.Lambda` nodes / `Func` objects) go to
+    `cands`; names that cannot be read go to `unread`.  Locals and a rebound parameter are followed through
+    their assignments."""
+    from ..dataflow import defs_of
+
+    stack = [strip_cast(e)]
+    while stack:
+        x = stack.pop()
+        if isinstance(x, ast.Lambda):
+            cands.append(x)
+            continue
+        if isinstance(x, ast.Name):
+            if not isinstance(x.ctx, ast.Load) or is_param(init, x):
+                continue
+            fn = _named_function(p, init, x.id)
+            if fn is not None:
+                cands.append(fn)
+                continue
+            ds = defs_of(init, x.id)
+            if ds and depth < 4 and all(d.kind == "param" or (d.kind in ("assign", "walrus") and d.index is None) for d in ds):
+                for d in ds:
+                    if d.kind != "param":
+                        _default_filters(p, init, d.value, cands, unread, depth + 1)
+                continue
+            unread.append(x)
+            continue
+        stack.extend(ast.iter_child_nodes(x))
+
+
+def _admits_everything(c) -> bool:
+    """A lambda whose body is the constant True / a plain named function that returns the constant True on every
+    path (no path falls off the end, no raise)."""
+
+    def true(o):
+        return isinstance(o, ast.Constant) and o.value is True
+
+    if isinstance(c, ast.Lambda):
+        return true(c.body)
+    if c.is_async or any(isinstance(n, (ast.Yield, ast.YieldFrom)) for n in c.body_nodes()):
+        return False
+    g = c.cfg
+    rets = [n for n in g.nodes.values() if n.kind == "return"]
+    good = [n.id for n in rets if n.ast.value is not None and all_origins(c, n.ast.value, true)]
+    if not rets or len(good) != len(rets) or any(n.kind == "raise_stmt" for n in g.nodes.values()):
+        return False
+    return g.escape(g.entry, good) is None
 
 
 # --------------------------------------------------------------------------- R6
@@ -789,8 +861,8 @@ def r6(ctx):
     for n in g.nodes.values():
         for c in n.calls():
             if method_call(c, "put") and (n.id in put_tok or n.id in put_term):
-                for o in _receiver_defs(f, c.func.value):
-                    if not _target_ok(f, o, bnd):
+                for o, known in _receiver_defs(f, g, c.func.value, n.id):
+                    if not _target_ok(o, known, bnd):
                         recv_ok, why = False, unparse(o)
     ctx.ob("R6", "boundary action delivers to boundary.port, and to super() (not self.put) when the boundary targets this port",
            recv_ok, func=f, node=f.node, instance="boundary-action:target",
@@ -917,19 +989,36 @@ def _empty_test(e: ast.AST) -> bool:
     return False
 
 
-def _receiver_defs(f, e: ast.AST) -> list[ast.AST]:
-    """The expression(s) a receiver denotes, conditional expressions kept whole."""
+def _facts_common(g, ids: list[int]) -> list[tuple[ast.AST, bool]]:
+    """Branch facts (atom, truth) that hold at every one of the CFG nodes `ids`."""
+    if not ids:
+        return []
+    per = [facts_at(g, i) for i in ids]
+    keys = [{(fact_key(a), v) for a, v in fs} for fs in per]
+    return [(a, v) for a, v in per[0] if all((fact_key(a), v) in k for k in keys)]
+
+
+def _receiver_defs(f, g, e: ast.AST, use: int) -> list[tuple[ast.AST, list]]:
+    """The expression(s) a receiver denotes (conditional expressions kept whole), each with the branch facts
+    that hold where it is evaluated: at the assignment for a local temporary, at the call itself otherwise."""
     from ..dataflow import defs_of
 
     if isinstance(e, ast.Name):
         ds = defs_of(f, e.id)
         if ds and all(d.kind in ("assign", "walrus") and d.index is None for d in ds):
-            return [strip_cast(d.value) for d in ds]
-    return [e]
+            out = []
+            for d in ds:
+                ids = g.node_containing(d.stmt) if d.kind == "walrus" else (g.ids_of(d.stmt) or g.node_containing(d.stmt))
+                out.append((strip_cast(d.value), _facts_common(g, list(ids))))
+            return out
+    return [(strip_cast(e), facts_at(g, use))]
 
 
-def _target_ok(f, o: ast.AST, bnd: str) -> bool:
-    """`boundary.port if boundary.port is not self else super()` (either orientation)."""
+def _target_ok(o: ast.AST, known: list, bnd: str) -> bool:
+    """The receiver expression `o`, evaluated where the branch facts `known` hold, is `super()` exactly when
+    `boundary.port is self` holds and `boundary.port` exactly when it does not.  The test may be spelled in any way
+    (`is not` / `not ... is` / swapped operands / swapped arms of a conditional expression / an if statement around
+    the assignment of the temporary): only the truth of the canonical atom on the way to each arm counts."""
 
     def is_port(x):
         return isinstance(x, ast.Attribute) and x.attr == "port" and is_name(x.value, bnd)
@@ -937,16 +1026,20 @@ def _target_ok(f, o: ast.AST, bnd: str) -> bool:
     def is_super(x):
         return isinstance(x, ast.Call) and is_name(x.func, "super")
 
-    if not isinstance(o, ast.IfExp):
+    def same_port_atom(a):
+        if not (isinstance(a, ast.Compare) and len(a.ops) == 1 and isinstance(a.ops[0], ast.Is)):
+            return False
+        l, r = a.left, a.comparators[0]
+        return (is_port(l) and is_name(r, "self")) or (is_port(r) and is_name(l, "self"))
+
+    o = strip_cast(o)
+    if isinstance(o, ast.IfExp):
+        return _target_ok(o.body, known + atoms(o.test, True), bnd) and _target_ok(o.orelse, known + atoms(o.test, False), bnd)
+    vals = {v for a, v in known if same_port_atom(a)}
+    if len(vals) != 1:
         return False
-    t = o.test
-    if not (isinstance(t, ast.Compare) and len(t.ops) == 1 and isinstance(t.ops[0], (ast.Is, ast.IsNot))):
-        return False
-    l, r = t.left, t.comparators[0]
-    if not ((is_port(l) and is_name(r, "self")) or (is_port(r) and is_name(l, "self"))):
-        return False
-    same, other = (o.body, o.orelse) if isinstance(t.ops[0], ast.Is) else (o.orelse, o.body)
-    return is_super(same) and is_port(other)
+    same = vals.pop()
+    return (is_super(o) and same) or (is_port(o) and not same)
 
 
 def _replay_iter(p, f, it: ast.AST) -> str | None:
